@@ -228,6 +228,70 @@ def oracle_c01(dump, max_inputs=8):
     return None
 
 
+def oracle_after_edits(dump, max_inputs=6):
+    """evaluation equals the semantics for a well-formed circuit HOWEVER it was reached: the same object is
+    evaluated, edited through public mutators that leave it well formed (inputs re-ordered, a gate renamed, a gate
+    added on top of a sink and removed again, an unused input and a constant added), and evaluated again after
+    every edit - each time against the reference semantics of the state it is in then"""
+    from . import semoracle
+    if not well_formed_for_eval(dump) or not semoracle.acyclic(dump):
+        return None
+    c = ct.build_circuit(dump)
+    if len(c._inputs) > max_inputs or not c._gates:
+        return None
+    from cirbo.core.circuit import gate as G
+
+    def compare(what):
+        d = ct.dump_circuit(c)
+        ins, outs = list(d['inputs']), list(d['outputs'])
+        vecs = [tuple([False] * len(ins)), tuple([True] * len(ins)), tuple(bool(i % 2) for i in range(len(ins))),
+                tuple(bool((i + 1) % 2) for i in range(len(ins)))]
+        for vec in dict.fromkeys(vecs):
+            ref = ref_eval(d, dict(zip(ins, vec)))
+            try:
+                ev = c.evaluate(list(vec))
+                full = c.evaluate_full_circuit(dict(zip(ins, vec)))
+            except Exception as e:  # noqa: BLE001
+                return f'after {what}: evaluation raises {type(e).__name__}'
+            if list(ev) != [ref[o] for o in outs]:
+                return f'after {what}: evaluate({list(vec)}) = {list(ev)}, semantics of the current state say {[ref[o] for o in outs]}'
+            for l in d['gates']:
+                if full.get(l[0]) is not ref[l[0]]:
+                    return (f'after {what}: evaluate_full_circuit reports {full.get(l[0])!r} at {l[0]}, semantics of the '
+                            f'current state say {ref[l[0]]}')
+        if len(ins) <= 4:
+            try:
+                tt = c.get_truth_table()
+            except Exception as e:  # noqa: BLE001
+                return f'after {what}: get_truth_table raises {type(e).__name__}'
+            exp = [[ref_eval(d, dict(zip(ins, v)))[o] for v in itertools.product([False, True], repeat=len(ins))] for o in outs]
+            if tt != exp:
+                return f'after {what}: get_truth_table = {tt}, semantics of the current state say {exp}'
+        return None
+    msg = compare('construction')
+    if msg:
+        return msg
+    labels = list(c._gates)
+    sinks = [l for l in labels if not c.get_gate_users(l)] or labels
+    edits = [('order_inputs (reversed)', lambda: c.order_inputs(list(reversed(c._inputs)))),
+             ('rename_gate', lambda: c.rename_gate(labels[0], labels[0] + '~renamed')),
+             ('emplace_gate of a NOT on a sink', lambda: c.emplace_gate('~tmp_not', G.NOT, (sinks[-1] if sinks[-1] != labels[0] else labels[0] + '~renamed',))),
+             ('remove_gate of that NOT', lambda: c.remove_gate('~tmp_not')),
+             ('add_inputs of an unused input', lambda: c.add_inputs(['~in'])),
+             ('emplace_gate of a constant', lambda: c.emplace_gate('~one', G.ALWAYS_TRUE, ())),
+             ('order_inputs (rotated)', lambda: c.order_inputs(list(c._inputs[1:]) + list(c._inputs[:1]))),
+             ('mark_as_output of the constant', lambda: c.mark_as_output('~one'))]
+    for what, fn in edits:
+        try:
+            fn()
+        except Exception:  # noqa: BLE001
+            continue
+        msg = compare(what)
+        if msg:
+            return msg
+    return None
+
+
 def oracle_c15(dump, max_inputs=5):
     """partial assignments: defined values are stable under completion; total => defined"""
     from . import semoracle
